@@ -775,7 +775,7 @@ CLAIMS["C03"]["text"] += (
 CLAIMS["C03"]["note"] += (
     " Round 11 — proved: the three theorems above (axioms propext, Classical.choice, Quot.sound). Four places where Wt alone was "
     "too weak became decidable conjuncts of the fragment (enum field read without the variant fact; struct N vs enum N; dispatch "
-    "row vs implementing function; wildcard-compatible vs exact callee instance). Not proved (closures / function values were added in the second pass): Ref / Vec / "
+    "row vs implementing function; wildcard-compatible vs exact callee instance). Not proved (closures / function values were added in the second pass, trait calls on receivers of parametric type in the third): Ref / Vec / "
     "arrays (store typing), trait objects, go, trait calls on receivers of parametric type inside the fragment, progress. Validated "
     "only: the static-dispatch oracle on programs outside the fragment. In real Core dumps the typer has already resolved every "
     "trait-method call on a concrete receiver to a direct call; every ETraitCall left has a receiver of parametric type.")
@@ -785,6 +785,13 @@ CLAIMS["C03"]["text"] += (
     "functions as values at an instance of their signature); the fragment admits closure nodes, function values and calls of any "
     "fragment expression of function type; sem_preserves_types_applyv_partial covers the application of any function value. "
     "Real Core dumps inside the hypothesis: 81 -> 216 of 682.")
+CLAIMS["C03"]["text"] += (
+    " Third pass: ETraitCall on ANY receiver (in real Core dumps always a type parameter under a trait bound) is inside the fragment "
+    "when the dispatch table passes the decidable check ValTy.implsOk (every row's function has a first parameter of a keyable "
+    "type — scalar of a real width or non-generic enum / struct — with the row's key and the trait's method signature at that "
+    "Self; no nominal type named like a scalar key); Lemmas/ValTyKey.lean proves key_determines (the dispatch key of a well-typed "
+    "value determines its type among the keyable types), so traitcall_static_dispatch now applies to real programs with trait "
+    "calls. Real Core dumps inside the hypothesis: 216 -> 225 of the same 683 programs, 360 of 818 with the new pattern-position stream (8 with an ETraitCall).")
 CLAIMS["C07"]["note"] += (
     " Round 11: traitcall_static_dispatch (Props/C03.lean) proves, on the fragment of sem_preserves_types_partial, the typing "
     "invariant traitcall_commutes assumes (runtime key = key of the instantiated static type); ./check C07 also runs the "
